@@ -4,12 +4,16 @@ import json, os
 HERE = os.path.dirname(os.path.abspath(__file__))
 
 NA = {
- "C01": "Decryption error <= configured bound and exact plaintext position are magnitudes of run-time integers under all radices/precisions; no shape-level necessary condition beyond what C06 (noise/mask call discipline) already decides. Static analysis does not apply.",
  "C14": "Blind rotation returns the table entry at the mod-switched index: index/drift/sign arithmetic and homomorphic noise.",
 }
 
 # id -> (level category, level text, design_ref, level_note, technique, has_thorough)
 CLAIMS = {
+ "C01": ("other",
+         "Only the placement and truncation of the fresh error and the radix agreement of the plaintext are decided. NoiseInfos::target_limb_and_scale puts an error of precision k on the limb and with the scale 2^s for which (limb + 1) * base2k - s == k and 0 <= s < base2k, for every k >= 1 and radix (ERR-1, piecewise-linear identity over the expressions extracted from MIR); every Gaussian sampling shape function asks for that placement with its own radix, writes the limb it names and scales sigma and bound with the factor it returned (ERR-2, RND-9); every scalar sampler stores only samples that passed the rejection test against its own bound, or clamps to it (ERR-3); every encryption that takes a GLWE / LWE plaintext compares the plaintext's radix with the ciphertext's before moving limbs (POS-1, DESIGN section 9 row 60). With C06's call discipline (noise injected once on every path) these are necessary conditions of 'error at most the configured bound at the encryption precision, message at its own position'. The magnitude of the decryption error (1-norms of secrets, rounding), the normalisation arithmetic and the mask products are not decided.",
+         "DESIGN.md §8 (C01), §9 row 60",
+         "Trusted: rand_distr::Normal; noise injected exactly once per encryption (RND-1 / RND-7 under C06). Thin, clause-scoped claim.",
+         "piecewise-linear identity over extracted expressions + dominance of the rejection test + interprocedural radix-comparison reachability", True),
  "C13": ("proof",
          "All 290 (circuit, output bit) Boolean functions of the shipped tables are computed exactly (ROBDDs, all 2^64 inputs) from the constants in the type-checked source and compared with the reference word functions; well-formedness (ranges, width, def-before-use) is checked on every node; the interpreter's semantics is tied to MIR of eval_level/get_bit and the operation->table binding to the trait impls.",
          "DESIGN.md §3 C13",
